@@ -483,6 +483,9 @@ def r7_failure_changes_nothing_else(ctx):
 
 def run(ctx):
     r7_failure_changes_nothing_else(ctx)
+    # (R3 cont.) a panic in any start-up stage of a restart is reported, not only the last stage's (shared with C09.R4)
+    from .C09 import r4_restart
+    r4_restart(ctx, rule='C13.R3')
     r6_consumers_and_teardown(ctx)
     r1_harness_coverage(ctx)
     r2_harness(ctx)
